@@ -101,6 +101,10 @@ struct Lab {
     spent: Vec<u64>,
     mint: i128,
     produced: Vec<u64>,
+    /// quantity of a second asset *name* under the same policy that appears only in a produced output
+    sibling_produced: u64,
+    /// quantity of a second asset name under the same policy that appears only in the spent UTxO
+    sibling_spent: u64,
 }
 
 fn lab_scenario(rng: &mut Rng, n_inputs: usize) -> Lab {
@@ -108,37 +112,41 @@ fn lab_scenario(rng: &mut Rng, n_inputs: usize) -> Lab {
     let d = small(rng);
     let s = small(rng);
     let big = |x: u128| -> u64 { (x % TWO64) as u64 };
-    match rng.below(18) {
-        16 => Lab { name: "mint-counted-on-the-wrong-side", spent: vec![k], mint: k as i128, produced: vec![] },
-        17 => Lab { name: "mint-counted-on-the-wrong-side(2)", spent: vec![k.saturating_add(d)], mint: d as i128, produced: vec![k] },
-        0 => Lab { name: "mint-balanced", spent: vec![], mint: k as i128, produced: vec![k] },
-        1 => Lab { name: "spent-balanced", spent: vec![k.saturating_add(d)], mint: 0, produced: vec![k, d] },
-        2 => Lab { name: "mint-unbalanced+1", spent: vec![], mint: k as i128, produced: vec![k + 1] },
-        3 => Lab { name: "mint-unbalanced-1", spent: vec![], mint: k as i128 + 1, produced: vec![k] },
-        4 => Lab { name: "burn-absent-produced-2^64-k", spent: vec![], mint: -(k as i128), produced: vec![big(TWO64 - k as u128)] },
-        5 => Lab { name: "burn-absent-nothing-produced", spent: vec![], mint: -(k as i128), produced: vec![] },
-        6 => Lab { name: "burn-present-balanced", spent: vec![k.saturating_add(d)], mint: -(k as i128), produced: vec![d] },
+    match rng.below(22) {
+        18 => Lab { name: "sibling-name-forged(policy-spent)", spent: vec![k], mint: 0, produced: vec![k], sibling_produced: d, sibling_spent: 0 },
+        19 => Lab { name: "sibling-name-forged(policy-minted)", spent: vec![], mint: k as i128, produced: vec![k], sibling_produced: d, sibling_spent: 0 },
+        20 => Lab { name: "sibling-name-vanishes", spent: vec![k], mint: 0, produced: vec![k], sibling_produced: 0, sibling_spent: d },
+        21 => Lab { name: "sibling-name-balanced", spent: vec![k], mint: 0, produced: vec![k], sibling_produced: d, sibling_spent: d },
+        16 => Lab { name: "mint-counted-on-the-wrong-side", spent: vec![k], mint: k as i128, produced: vec![], sibling_produced: 0, sibling_spent: 0 },
+        17 => Lab { name: "mint-counted-on-the-wrong-side(2)", spent: vec![k.saturating_add(d)], mint: d as i128, produced: vec![k], sibling_produced: 0, sibling_spent: 0 },
+        0 => Lab { name: "mint-balanced", spent: vec![], mint: k as i128, produced: vec![k], sibling_produced: 0, sibling_spent: 0 },
+        1 => Lab { name: "spent-balanced", spent: vec![k.saturating_add(d)], mint: 0, produced: vec![k, d], sibling_produced: 0, sibling_spent: 0 },
+        2 => Lab { name: "mint-unbalanced+1", spent: vec![], mint: k as i128, produced: vec![k + 1], sibling_produced: 0, sibling_spent: 0 },
+        3 => Lab { name: "mint-unbalanced-1", spent: vec![], mint: k as i128 + 1, produced: vec![k], sibling_produced: 0, sibling_spent: 0 },
+        4 => Lab { name: "burn-absent-produced-2^64-k", spent: vec![], mint: -(k as i128), produced: vec![big(TWO64 - k as u128)], sibling_produced: 0, sibling_spent: 0 },
+        5 => Lab { name: "burn-absent-nothing-produced", spent: vec![], mint: -(k as i128), produced: vec![], sibling_produced: 0, sibling_spent: 0 },
+        6 => Lab { name: "burn-present-balanced", spent: vec![k.saturating_add(d)], mint: -(k as i128), produced: vec![d], sibling_produced: 0, sibling_spent: 0 },
         7 => {
             // produced a + (2^64 − d') with a − d' = s   => Σ produced = 2^64 + s, spent/mint = s
             let a = s.saturating_add(d);
             if rng.bool() {
-                Lab { name: "produced-wrap-2^64(minted)", spent: vec![], mint: s as i128, produced: vec![a, big(TWO64 - d as u128)] }
+                Lab { name: "produced-wrap-2^64(minted)", spent: vec![], mint: s as i128, produced: vec![a, big(TWO64 - d as u128)], sibling_produced: 0, sibling_spent: 0 }
             } else {
-                Lab { name: "produced-wrap-2^64(spent)", spent: vec![s], mint: 0, produced: vec![a, big(TWO64 - d as u128)] }
+                Lab { name: "produced-wrap-2^64(spent)", spent: vec![s], mint: 0, produced: vec![a, big(TWO64 - d as u128)], sibling_produced: 0, sibling_spent: 0 }
             }
         }
-        8 => Lab { name: "produced-wrap-around-2^63", spent: vec![], mint: s as i128, produced: vec![(1u64 << 63) - 1, (1u64 << 63) + 1 + s] },
+        8 => Lab { name: "produced-wrap-around-2^63", spent: vec![], mint: s as i128, produced: vec![(1u64 << 63) - 1, (1u64 << 63) + 1 + s], sibling_produced: 0, sibling_spent: 0 },
         9 => {
             // spent 2^64 − d, mint m > d, produced m − d
             let m = d.saturating_add(k);
-            Lab { name: "spent-2^64-d-plus-mint", spent: vec![big(TWO64 - d as u128)], mint: m as i128, produced: vec![k] }
+            Lab { name: "spent-2^64-d-plus-mint", spent: vec![big(TWO64 - d as u128)], mint: m as i128, produced: vec![k], sibling_produced: 0, sibling_spent: 0 }
         }
-        10 if n_inputs >= 2 => Lab { name: "spent-wrap-two-inputs", spent: vec![s.saturating_add(d), big(TWO64 - d as u128)], mint: 0, produced: vec![s] },
-        11 => Lab { name: "produced-big-first", spent: vec![], mint: s as i128, produced: vec![big(TWO64 - d as u128), s.saturating_add(d)] },
-        12 => Lab { name: "three-way-wrap", spent: vec![], mint: s as i128, produced: vec![(1u64 << 63) - 1, (1u64 << 63) - 1, 2 + s] },
-        13 => Lab { name: "big-balanced", spent: vec![(1u64 << 63) + k], mint: 0, produced: vec![(1u64 << 63) + k] },
-        14 => Lab { name: "mint-max-balanced", spent: vec![], mint: i64::MAX as i128, produced: vec![i64::MAX as u64] },
-        _ => Lab { name: "mint-balanced-split", spent: vec![], mint: (k as i128) + (d as i128), produced: vec![k, d] },
+        10 if n_inputs >= 2 => Lab { name: "spent-wrap-two-inputs", spent: vec![s.saturating_add(d), big(TWO64 - d as u128)], mint: 0, produced: vec![s], sibling_produced: 0, sibling_spent: 0 },
+        11 => Lab { name: "produced-big-first", spent: vec![], mint: s as i128, produced: vec![big(TWO64 - d as u128), s.saturating_add(d)], sibling_produced: 0, sibling_spent: 0 },
+        12 => Lab { name: "three-way-wrap", spent: vec![], mint: s as i128, produced: vec![(1u64 << 63) - 1, (1u64 << 63) - 1, 2 + s], sibling_produced: 0, sibling_spent: 0 },
+        13 => Lab { name: "big-balanced", spent: vec![(1u64 << 63) + k], mint: 0, produced: vec![(1u64 << 63) + k], sibling_produced: 0, sibling_spent: 0 },
+        14 => Lab { name: "mint-max-balanced", spent: vec![], mint: i64::MAX as i128, produced: vec![i64::MAX as u64], sibling_produced: 0, sibling_spent: 0 },
+        _ => Lab { name: "mint-balanced-split", spent: vec![], mint: (k as i128) + (d as i128), produced: vec![k, d], sibling_produced: 0, sibling_spent: 0 },
     }
 }
 
@@ -294,7 +302,20 @@ fn gen_case(rng: &mut Rng, f: &Fixture) -> Option<Case> {
             for (i, q) in lab.spent.iter().enumerate() {
                 give_asset(&mut utxo, ins.get(i)?, &pol, &name, *q);
             }
+            let mut sibling = name.clone();
+            sibling.truncate(31);
+            sibling.push(b'~');
+            if lab.sibling_spent > 0 {
+                give_asset(&mut utxo, &in0, &pol, &sibling, lab.sibling_spent);
+            }
             let mut outs = outputs(&t);
+            if lab.sibling_produced > 0 {
+                let coin = 3_000_000;
+                if !fund(&mut utxo, &in0, coin) {
+                    return None;
+                }
+                outs.push(mk_output(&addr0, coin, &vec![(pol.to_vec(), vec![(sibling.clone(), lab.sibling_produced)])], legacy));
+            }
             for q in &lab.produced {
                 let coin = 3_000_000;
                 if !fund(&mut utxo, &in0, coin) {
@@ -307,7 +328,7 @@ fn gen_case(rng: &mut Rng, f: &Fixture) -> Option<Case> {
                 let k = lab.produced.len();
                 outs.rotate_right(k);
             }
-            ("lab-asset", format!("{}: spent={:?} mint={} produced={:?}", lab.name, lab.spent, lab.mint, lab.produced), set_outputs(&t, outs))
+            ("lab-asset", format!("{}: spent={:?} mint={} produced={:?} sibling(spent={},produced={})", lab.name, lab.spent, lab.mint, lab.produced, lab.sibling_spent, lab.sibling_produced), set_outputs(&t, outs))
         }
     };
     let tx = if family == "unbalanced" { tx } else { top_up_fee(f, tx, &mut utxo)? };
